@@ -72,7 +72,7 @@ F_SameTree(V, W) ==
   \cup Fail("SameDist",      V.names = W.names => DistMat(V) = DistMat(W))
   \cup Fail("SupKept",       SupKept(V, W))
 
-RootKids(V)  == Children(V, V.T.root)
+RootKids(V)  == Children(V, V.root)
 MaxOf(S)     == CHOOSE x \in S : \A y \in S : x >= y
 
 \* outgroup S forms one side of a split of V
@@ -155,8 +155,8 @@ F_Collapse(V, W, must, may, keepTipLens) ==
     \cup Fail("CollapseKeepsLengths",
               \A s \in (DOMAIN lv) \cap (DOMAIN lw) : (keepTipLens \/ NonTrivial(s)) => lv[s] = lw[s])
     \cup Fail("CollapseKeepsNames",
-              {<<W.below[n], W.T.N[n].nm>> : n \in InnerNonRoot(W)} \subseteq
-              {<<V.below[n], V.T.N[n].nm>> : n \in InnerNonRoot(V)} \cup {<<W.below[W.T.root], V.T.N[V.T.root].nm>>})
+              {<<W.below[n], W.nm[n]>> : n \in InnerNonRoot(W)} \subseteq
+              {<<V.below[n], V.nm[n]>> : n \in InnerNonRoot(V)})
 
 F_Resolve(V, W) ==
      Fail("ResolveSameTips",  V.names = W.names /\ UniqueNames(W))
@@ -226,14 +226,14 @@ F_IndexFresh(T, V, idx, rank) ==
   LET nm(S) == {rank[i] : i \in S}
       N     == Cardinality(V.names)
   IN  Fail("IndexBitset",
-           \A n \in NonRoot(V) : LET ix == idx[V.pe[n]] IN
+           \A n \in NonRoot(V) : LET ix == idx[V.br[n].id] IN
                ix.has /\ ix.blen = N /\ nm(SeqRange(ix.bits)) = V.below[n])
   \cup Fail("IndexCounts",
-           \A n \in NonRoot(V) : LET ix == idx[V.pe[n]] IN
+           \A n \in NonRoot(V) : LET ix == idx[V.br[n].id] IN
                ix.nr = Cardinality(V.below[n]) /\ ix.nl = N - Cardinality(V.below[n]))
   \cup Fail("IndexTopoDepth",
-           \A n \in NonRoot(V) : idx[V.pe[n]].td = TopoDepthOf(V, n))
+           \A n \in NonRoot(V) : idx[V.br[n].id].td = TopoDepthOf(V, n))
   \cup Fail("HashEqualOnEqualSplits",
-           \A n, m \in NonRoot(V) : SplitOf(V, n) = SplitOf(V, m) => idx[V.pe[n]].h = idx[V.pe[m]].h)
+           \A n, m \in NonRoot(V) : SplitOf(V, n) = SplitOf(V, m) => idx[V.br[n].id].h = idx[V.br[m].id].h)
 
 =============================================================================
